@@ -15,30 +15,42 @@ theorem descriptor_not_print_media_agrees :
 section Descriptors
 variable {β : Type} (rule : String) (v : String → Desc → R (Option β))
 
-/-- Every way in which a descriptor is dropped: not a declaration, `!important`, not print media, unknown for
-this at-rule, refused by its validator (`None` or `InvalidValues`). -/
+/-- Every way in which a descriptor is dropped: not a declaration, `!important`, no value at all, not print
+media, unknown for this at-rule, refused by its validator (`None` or `InvalidValues`). -/
 theorem descriptor_dropped (d : Desc)
-    (h : d.kind ≠ .declaration ∨ d.important = true ∨ Gen.DescriptorsC07.notPrintMedia.contains d.name = true ∨
+    (h : d.kind ≠ .declaration ∨ d.important = true ∨ d.noTokens = true ∨
+      Gen.DescriptorsC07.notPrintMedia.contains d.name = true ∨
       (knownDescriptors rule).contains d.name = false ∨ v d.name d = .ok none ∨ v d.name d = .error .invalid) :
     preprocessDescriptorOne rule v d = .ok [] := by
   unfold preprocessDescriptorOne
   by_cases h1 : (decide (d.kind ≠ .declaration) || d.important) = true
   · simp only [h1, if_true]; rfl
   · simp only [h1, Bool.false_eq_true, if_false]
-    by_cases h2 : Gen.DescriptorsC07.notPrintMedia.contains d.name = true
-    · simp only [h2, if_true]; rfl
-    · simp only [h2, Bool.false_eq_true, if_false]
-      by_cases h3 : (knownDescriptors rule).contains d.name = true
-      · simp only [h3, Bool.not_true, Bool.false_eq_true, if_false]
-        rcases h with h | h | h | h | h | h
-        · exact absurd (by simp [h]) h1
-        · exact absurd (by simp [h]) h1
-        · exact absurd h h2
-        · rw [h3] at h; cases h
-        · rw [h]; rfl
-        · rw [h]; rfl
-      · have h3' : (knownDescriptors rule).contains d.name = false := by simpa using h3
-        simp only [h3', Bool.not_false, if_true]; rfl
+    by_cases h0 : d.noTokens = true
+    · simp only [h0, if_true]; rfl
+    · simp only [h0, Bool.false_eq_true, if_false]
+      by_cases h2 : Gen.DescriptorsC07.notPrintMedia.contains d.name = true
+      · simp only [h2, if_true]; rfl
+      · simp only [h2, Bool.false_eq_true, if_false]
+        by_cases h3 : (knownDescriptors rule).contains d.name = true
+        · simp only [h3, Bool.not_true, Bool.false_eq_true, if_false]
+          rcases h with h | h | h | h | h | h | h
+          · exact absurd (by simp [h]) h1
+          · exact absurd (by simp [h]) h1
+          · exact absurd h h0
+          · exact absurd h h2
+          · rw [h3] at h; cases h
+          · rw [h]; rfl
+          · rw [h]; rfl
+        · have h3' : (knownDescriptors rule).contains d.name = false := by simpa using h3
+          simp only [h3', Bool.not_false, if_true]; rfl
+
+/-- **A descriptor without a value never reaches its validator** (`fix:` d71ddd0; regression of
+`counter-style-system-empty-indexerror`): whatever the validator would do on the empty token list — `tokens[0]`
+raised `IndexError` in `system` — the descriptor is dropped like an empty declaration. -/
+theorem descriptor_empty_dropped (d : Desc) (h : d.noTokens = true) :
+    preprocessDescriptorOne rule v d = .ok [] :=
+  descriptor_dropped rule v d (Or.inr (Or.inr (Or.inl h)))
 
 theorem descriptors_append (a b : List Desc) :
     preprocessDescriptors rule v (a ++ b) = (do
@@ -71,9 +83,10 @@ theorem descriptor_invalid_vanish (a b : List Desc) (d : Desc) (h : preprocessDe
   | ok x => cases preprocessDescriptors rule v b <;> rfl
 
 /-- The funnel itself never fails: what leaves it is an exception of a descriptor validator other than
-`InvalidValues` (runtime assumption; violated today by two listed findings). -/
+`InvalidValues` (runtime assumption; the two descriptor crashes that violated it were repaired by be7a07b and
+d71ddd0), and it comes from a descriptor that has a value. -/
 theorem descriptors_only_propagate (ds : List Desc) (f : Fail) (h : preprocessDescriptors rule v ds = .error f) :
-    ∃ d ∈ ds, v d.name d = .error f ∧ f ≠ .invalid := by
+    ∃ d ∈ ds, v d.name d = .error f ∧ f ≠ .invalid ∧ d.noTokens = false := by
   induction ds with
   | nil => cases h
   | cons d rest ih =>
@@ -99,16 +112,19 @@ theorem descriptors_only_propagate (ds : List Desc) (f : Fail) (h : preprocessDe
       · cases hp
       · split at hp
         · cases hp
-        · split at hp
+        · rename_i hnt
+          split at hp
           · cases hp
           · split at hp
             · cases hp
-            · cases hp
-            · cases hp
-            · rename_i f' hne hv
-              have : f' = g := by cases hp; rfl
-              subst this
-              exact ⟨hv, hne⟩
+            · split at hp
+              · cases hp
+              · cases hp
+              · cases hp
+              · rename_i f' hne hv
+                have : f' = g := by cases hp; rfl
+                subst this
+                exact ⟨hv, hne, by simpa using hnt⟩
 
 end Descriptors
 
@@ -119,6 +135,19 @@ example :
     preprocessDescriptors "font-face" v
       [d "font-family" false 0, d "SRC" false 1, d "src" true 2, d "font-display" false 3, d "src" false 4]
       = .ok [("font_family", "font-family0"), ("src", "src4")] := by decide
+
+/-- Regression (`@counter-style a { system: ; }`, repaired by d71ddd0, and `src: format("woff")`, repaired by
+be7a07b inside the `src` validator, which now returns `None`): with a validator that would crash on an empty value
+the empty descriptor is dropped and the valid descriptors around it are kept; a validator answering `None` drops
+its descriptor only. -/
+example :
+    let v : String → Desc → R (Option String) := fun name d =>
+      if d.noTokens then .error .indexError else if name = "src" then .ok none else .ok (some "x")
+    let d (n : String) (e : Bool) (i : Nat) : Desc :=
+      { kind := .declaration, name := n, important := false, noTokens := e, id := i }
+    preprocessDescriptors "counter-style" v [d "system" true 0, d "symbols" false 1] = .ok [("symbols", "x")] ∧
+    preprocessDescriptors "font-face" v [d "font-family" false 0, d "src" false 1] = .ok [("font_family", "x")] := by
+  decide
 
 /-! ## 24. font-variant -/
 
